@@ -15,8 +15,8 @@ import tempfile
 from sim import core, tasks
 from sim.runner import Check
 
-EXC_KINDS = ('plain', 'args', 'chained', 'old', 'kbi', 'sysexit')
-EXC_KINDS_EXCEPTION = ('plain', 'args', 'chained', 'old')
+EXC_KINDS = ('plain', 'args', 'chained', 'old', 'kbi', 'sysexit', 'falsy')
+EXC_KINDS_EXCEPTION = ('plain', 'args', 'chained', 'old', 'falsy')
 
 
 class PlainErr(Exception):
@@ -27,6 +27,18 @@ class ArgsErr(Exception):
     def __init__(self, a, b):
         super().__init__(a, b)
         self.a, self.b = a, b
+
+
+class FalsyErr(Exception):
+    """An aggregate-style error whose instances are falsy when they carry no
+    items (it defines __len__): 'if exc:' is not 'if exc is not None:'."""
+
+    def __init__(self, label, items=()):
+        super().__init__(label)
+        self.items = list(items)
+
+    def __len__(self):
+        return len(self.items)
 
 
 class InnerErr(Exception):
@@ -80,6 +92,8 @@ def make_exc(kind, label):
         except PlainErr:
             pass
         return e
+    if kind == 'falsy':
+        return FalsyErr(label)
     if kind == 'kbi':
         return KeyboardInterrupt(label)
     if kind == 'sysexit':
@@ -121,8 +135,8 @@ def gen_prog(rng, depth, maxops):
     return prog
 
 
-def gen_task(rng):
-    c = core.weighted(rng, [('A', 6), ('B', 2), ('C', 4), ('D', 3)])
+def gen_task(rng, c=None):
+    c = c or core.weighted(rng, [('A', 6), ('B', 2), ('C', 4), ('D', 3)])
     if c == 'A':
         return {'c': 'A', 'exc': rng.choice(EXC_KINDS),
                 'reraise': rng.random() < 0.7,
@@ -151,6 +165,9 @@ def gen_task(rng):
             'errno': rng.choice((errno.ENOENT, errno.EACCES, errno.EBUSY,
                                  errno.EISDIR, errno.EIO, errno.EROFS)),
             'body': core.weighted(rng, [('raise', 5), ('ok', 1)]),
+            # the remove callback is itself a place where a greenthread can
+            # be switched out (it does I/O)
+            'rm_yield': rng.random() < 0.5,
             'pre': [[rng.choice(('nop', 'inner', 'yield'))]
                     for _ in range(rng.randint(0, 3))]}
 
@@ -444,10 +461,14 @@ class Real:
 
         def custom_ok(p):
             calls.append(p)
+            if s.get('rm_yield'):
+                yield_fn()
             os.unlink(p)
 
         def inject(p):
             calls.append(p)
+            if s.get('rm_yield'):
+                yield_fn()
             raise rm_err
         try:
             if s['remove'] == 'default':
@@ -496,9 +517,11 @@ class C09(Check):
             'reraise, nested block, raise new, force_reraise caught or not, '
             'yield}; manual capture()/force_reraise(); exception_filter as '
             'context manager / direct call / bound method / decorator; '
-            'remove_path_on_error with real or failing removers) x '
+            'remove_path_on_error with real or failing removers that may '
+            'themselves be switched out) x '
             'exception classes (plain, mandatory constructor args, chained, '
-            'already carrying a traceback, KeyboardInterrupt, SystemExit) '
+            'already carrying a traceback, falsy instances, '
+            'KeyboardInterrupt, SystemExit) '
             'interleaved at yield points by the seeded scheduler (greenlets '
             'or baton-passed threads). distinct = distinct (construct, '
             'program shape, exception kind, outcome, engine, interleaved?) '
@@ -551,7 +574,13 @@ class C09(Check):
     def gen(self, st, tier, index, total):
         rng = st('tasks')
         n = core.weighted(rng, [(1, 5), (2, 3), (3, 2)])
-        tl = [gen_task(rng) for _ in range(n)]
+        if n > 1 and rng.random() < 0.3:
+            # all tasks use the same construct: state that a construct shares
+            # between its users (class / module level) is then contended
+            c = core.weighted(rng, [('A', 3), ('B', 1), ('C', 2), ('D', 3)])
+            tl = [gen_task(rng, c) for _ in range(n)]
+        else:
+            tl = [gen_task(rng) for _ in range(n)]
         engine = st('engine').choice(('greenlet', 'thread', 'greenlet',
                                       'plain'))
         return {'engine': engine, 'tasks': tl,
